@@ -39,7 +39,86 @@ def define(name, kind, sh, vals):
         return f"{name} := {render.scalar_lit(vals[0])}"
     return render.define_matrix(name, kind, r, c, vals)
 
+# ------------------------------------------------------------------ impl -> spec on inexact floats (Trace_C01)
+FVALS_A = ["1", "2", "3", "5", "6", "7", "10", "14", "0.1", "0.7", "1.3", "2.9"]
+FVALS_B = ["10", "3", "7", "0.3", "1.1", "9", "6", "0.9", "13", "0.7", "5", "11"]
+CSHAPES = {"s": (True, 1, 1), "r3": (False, 1, 3), "c2": (False, 2, 1), "c3": (False, 3, 1), "m23": (False, 2, 3), "m22": (False, 2, 2), "r2": (False, 1, 2)}
+CPAIRS = [("m23", "s"), ("s", "m23"), ("m23", "m23"), ("m23", "c2"), ("c2", "m23"), ("m23", "r3"), ("r3", "m23"), ("r3", "r3"), ("c3", "c3"),
+          ("r3", "s"), ("s", "c3"), ("m22", "m22")]
+
+def consistency_family(rep, tier):
+    """each element of a matrix result = the interpreter's OWN scalar result for the corresponding element pair (bitwise), on
+    values whose results are not exactly representable; the pairing is MechBroadcast's (checked by TLC, Trace_C01)"""
+    import json
+    ops = ["+", "-", "*", "/", "%", "^", "<", "<=", ">", ">=", "==", "!="]
+    reqs = []; meta = []
+    for op in ops:
+        for kind in ("f64", "f32"):
+            for (ls, rs) in CPAIRS:
+                (lsc, lr, lc), (rsc, rr, rc) = CSHAPES[ls], CSHAPES[rs]
+                nl, nr = lr * lc, rr * rc
+                off = (ops.index(op) * 3 + len(ls) + len(rs)) % 5
+                la = [FVALS_A[(off + i) % len(FVALS_A)] for i in range(nl)]
+                rb = [FVALS_B[(off + 2 * i) % len(FVALS_B)] for i in range(nr)]
+                def lit(x): return x if kind == "f64" else f"{x}<f32>"
+                def mat(vals, r, c): return "[" + "; ".join(" ".join(lit(vals[j * r + i]) for j in range(c)) for i in range(r)) + "]"
+                st = [f"A := {lit(la[0]) if lsc else mat(la, lr, lc)}", f"B := {lit(rb[0]) if rsc else mat(rb, rr, rc)}", f"A {op} B"]
+                st += [f"a{i} := {lit(v)}" for i, v in enumerate(la)] + [f"b{j} := {lit(v)}" for j, v in enumerate(rb)]
+                st += [f"a{i} {op} b{j}" for i in range(nl) for j in range(nr)]
+                reqs.append({"id": len(reqs), "mode": "session", "stmts": st, "opts": {"shape": False}})
+                meta.append((op, kind, ls, rs, nl, nr))
+    outs = execpool.run_requests(reqs, nworkers=16, timeout=120)
+    os.makedirs(os.path.join(tlc.OUT, "traces"), exist_ok=True)
+    path = os.path.join(tlc.OUT, "traces", f"c01_{tier}.ndjson")
+    def tok(step):
+        if step.get("r") != "ok": return "err"
+        return json.dumps(step["v"], sort_keys=True).replace('"', "'")
+    index = []
+    with open(path, "w") as fh:
+        for req, (resp, oc), (op, kind, ls, rs, nl, nr) in zip(reqs, outs, meta):
+            if oc != "ok" or "steps" not in (resp or {}):
+                rep.fail(f"C01/{op}/{kind}/host-{oc}", f"{req['stmts'][:3]} -> interpreter process {oc}", {"stmts": req["stmts"]}); continue
+            st = resp["steps"]
+            if st[0].get("r") != "ok" or st[1].get("r") != "ok": continue
+            m = st[2]
+            base = 3 + nl + nr
+            table = [[tok(st[base + i * nr + j]) for j in range(nr)] for i in range(nl)]
+            (lsc, lr, lc), (rsc, rr, rc) = CSHAPES[ls], CSHAPES[rs]
+            res = {"sc": True, "r": 1, "c": 1, "d": ["-"]}
+            if m.get("r") == "ok":
+                v = m["v"]
+                if isinstance(v, dict) and v.get("t") == "mat":
+                    res = {"sc": False, "r": v["r"], "c": v["c"], "d": [json.dumps(x, sort_keys=True).replace('"', "'") for x in v["d"]]}
+                else:
+                    res = {"sc": True, "r": 1, "c": 1, "d": [json.dumps(v, sort_keys=True).replace('"', "'")]}
+            fh.write(json.dumps({"op": op, "kind": kind, "L": {"sc": lsc, "r": lr, "c": lc}, "R": {"sc": rsc, "r": rr, "c": rc},
+                                 "ok": m.get("r") == "ok", "res": res, "table": table}) + "\n")
+            index.append((req, op, kind, ls, rs))
+    tt = tlc.run("Trace_C01", "Trace_C01.cfg", workers=1, env={"TRACE": path}, deque=True, xss="1g", xmx="2g", timeout=1200, tag=f"Trace_C01_{tier}")
+    if any("unconsumed" in m for m in tt.msgs) or (tt.rc != 0 and not tt.ok):
+        raise tlc.TlcError(f"Trace_C01 did not consume the trace: {tt.msgs[:2]} {tt.errors[:2]}")
+    for m in tt.msgs:
+        if "l" not in m: continue
+        req, op, kind, ls, rs = index[m["l"] - 1]
+        for rule in m["rules"]:
+            rep.fail(f"C01/{op}/{kind}/{ls},{rs}/{rule}", f"{req['stmts'][:3]}: {rule} (the scalar results are those of the same session: {req['stmts'][-3:]} ...)", {"stmts": req["stmts"]})
+    # negative control: swap two entries of one result
+    lines = open(path).read().splitlines(); nc = 0
+    for k, ln in enumerate(lines):
+        e = json.loads(ln)
+        if e["ok"] and len(e["res"]["d"]) >= 2 and e["res"]["d"][0] != e["res"]["d"][1]:
+            e["res"]["d"][0], e["res"]["d"][1] = e["res"]["d"][1], e["res"]["d"][0]
+            p2 = path.replace(".ndjson", "_neg.ndjson"); open(p2, "w").write(json.dumps(e) + "\n")
+            tn = tlc.run("Trace_C01", "Trace_C01.cfg", workers=1, env={"TRACE": p2}, deque=True, xss="1g", xmx="2g", timeout=600, tag="Trace_C01_neg")
+            nc = 1 if any("element-differs-from-scalar-result" in mm.get("rules", []) for mm in tn.msgs) else 0
+            break
+    if not nc: raise tlc.TlcError("negative control failed: a corrupted C01 trace was accepted by Trace_C01")
+    log(f"[C01] consistency with the scalar operator on inexact floats: {len(index)} matrix evaluations ({sum(nl * nr for *_, nl, nr in meta)} scalar evaluations) validated by TLC in {tt.wall:.1f}s, {len([m for m in tt.msgs if 'l' in m])} rejected")
+    rep.cov.update({"consistency_matrix_evaluations": len(index), "consistency_rejected": len([m for m in tt.msgs if 'l' in m]), "consistency_negative_controls_passed": nc})
+    return len(index)
+
 def run(rep, tier, seed):
+    ncons = consistency_family(rep, tier)
     cfg = "MC_C01_quick.cfg" if tier == "quick" else "MC_C01_thorough.cfg"
     t = tlc.run("MC_C01", cfg, workers=16, timeout=3000)
     if t.violations or not t.ok:
@@ -135,7 +214,7 @@ def run(rep, tier, seed):
         if stp.get("r") == "ok" and absval.absval(stp["v"]) != got:
             rep.fail(sig + "/step-changes-result", f"{req['stmts']}: step changes the result to {absval.short(absval.absval(stp['v']))}", replay)
     rep.cov.update({"states": t.generated, "transitions": max(t.generated - 1, 1), "distinct_states": t.distinct,
-                    "traces_validated_against_impl": len(reqs), "cases_emitted": len(cases), "cases_replayed": len(reqs),
+                    "traces_validated_against_impl": len(reqs) + ncons, "cases_emitted": len(cases), "cases_replayed": len(reqs),
                     "exact_matched": tally["exact_ok"], "rejects_matched": tally["reject_ok"], "free_outcomes": tally["free"],
                     "arms_hit": len(arms), "operands_not_representable_in_kind(skipped)": skipped[0], "result_not_representable(free)": tally["result_not_representable"], "scalar_accepting_op_kinds": sum(1 for v in sacc.values() if v), "exhaustive": True,
                     "rule": "every operator x kind class x (lhs shape, rhs shape) of the bounded MechBroadcast model, replayed for every concrete kind of the class (14 numeric kinds, bool, string); result shape and every model-defined element compared"})
